@@ -668,6 +668,15 @@ fn eval_program(c: &Case, chk: bool, kf: &Kf) -> Eval {
             }
             Step::NotAvail => {}
             Step::Val(want, ovf) => {
+                // int()/frac() of a layout without integer bits: the property only ties Wrapping<F> to F here
+                let want = if matches!(*wop, W_INT | W_FRAC) && l.int_bits() == 0 {
+                    match get(D_LABELS[i]) {
+                        Some(Out::V(d)) => d,
+                        _ => want,
+                    }
+                } else {
+                    want
+                };
                 if ovf {
                     ev.class("step-overflowed");
                     ev.nontrivial = true;
